@@ -71,8 +71,16 @@ var S *Sched
 // only touch objects of that execution), then the goroutine and its stack are freed.
 func graveyard() { runtime.Goexit() }
 
+// owners maps every goroutine started through the shim to the scheduler of its execution: a
+// goroutine of a finished execution that wakes up later (its ticker fires when a later
+// execution advances the shared virtual clock) must never be adopted by the current one.
+var owners rsync.Map // g -> *Sched
+
 func (s *Sched) self() *Thread {
 	g := getg()
+	if o, ok := owners.Load(g); ok && o.(*Sched) != s {
+		graveyard()
+	}
 	s.mu.Lock()
 	defer s.mu.Unlock()
 	if t := s.byG[g]; t != nil {
@@ -164,6 +172,8 @@ func (s *Sched) spawn(f func()) *Thread {
 	s.mu.Unlock()
 	go func() {
 		g := getg()
+		owners.Store(g, s)
+		defer owners.Delete(g)
 		s.mu.Lock()
 		s.byG[g] = t
 		s.mu.Unlock()
